@@ -5,7 +5,10 @@ open Common
 
 let ctxs : (int, dstate) Hashtbl.t = Hashtbl.create 16
 let next = ref 0
-let bdec = spec_decode_fast
+(* block decoder = the specification's; every invocation of the current call is logged so that the
+   harness can attribute a model/code difference to the block decoder (C05's domain) *)
+let bdlog : (Big_int_Z.big_int list * Big_int_Z.big_int list * bool) list ref = ref []
+let bdec h bk = let r = spec_decode_fast h bk in bdlog := (h, bk, r <> None) :: !bdlog; r
 let stage_name = function
   | GetFrameHeader -> "getFrameHeader" | StoreFrameHeader -> "storeFrameHeader" | Init -> "init"
   | GetBlockHeader -> "getBlockHeader" | StoreBlockHeader -> "storeBlockHeader" | CopyDirect -> "copyDirect"
@@ -28,6 +31,7 @@ let () =
   (* dec <id> <src> <cap> <dstnull> <skip> <usedict> <dict>  ->  consumed produced ret fuel oob stage outlen outmd5 [outhex] *)
   reg "dec" (function [id; src; cap; dstnull; skip; usedict; dict] ->
       let s = get id in
+      bdlog := [];
       let o = { o_stableDst = false; o_skip = b skip; o_dstnull = b dstnull } in
       let (s', r) =
         if b usedict then decompress_usingDict bdec s (bytes_of_hex src) (zs cap) (bytes_of_hex dict) o
@@ -44,6 +48,10 @@ let () =
       Printf.sprintf "%s %s %s %s %s" (zstr r.i_consumed) (zstr r.i_ret) (if r.i_fuel then "FUEL" else "ok")
         (stage_name s'.d_stage) (match r.i_info with None -> "none" | Some f -> show_fi f)
     | _ -> "badargs");
+  (* bdlog -> n then n triples (hist block specresult) of the last dec command *)
+  reg "bdlog" (function _ ->
+      String.concat " " (string_of_int (List.length !bdlog) ::
+        List.map (fun (h, bk, ok) -> Printf.sprintf "%s %s %s" (hex_of_bytes h) (hex_of_bytes bk) (if ok then "1" else "0")) (List.rev !bdlog)));
   reg "hsize" (function [null; src] -> zstr (headerSize (b null) (bytes_of_hex src)) | _ -> "badargs");
   reg "state" (function [id] ->
       let s = get id in
